@@ -302,6 +302,7 @@ pub struct World {
     /// property in focus (other properties' monitor firings are counted, not fatal)
     pub focus: Option<&'static str>,
     pub suppressed: BTreeMap<&'static str, u64>,
+    pub init_violation: Option<Violation>,
 }
 
 pub fn new_entry_payload(id: u64, size: u32) -> Vec<u8> {
@@ -429,10 +430,15 @@ impl World {
             verbose: false,
             focus: None,
             suppressed: BTreeMap::new(),
+            init_violation: None,
         };
         let initial: Vec<NodeId> = w.cfg.voters.iter().chain(w.cfg.learners.iter()).cloned().collect();
         for id in initial {
-            w.start_node(id).expect("initial start must not violate anything");
+            if let Err(v) = w.start_node(id) {
+                // reported by the first apply() (and by replay) so that it is attributed like any other
+                w.init_violation = Some(v);
+                break;
+            }
         }
         w
     }
@@ -1140,6 +1146,10 @@ impl World {
     // ------------------------------------------------------------------------------------
 
     pub fn apply(&mut self, a: &Action) -> VResult<()> {
+        if let Some(v) = self.init_violation.take() {
+            let r = self.gate(Err(v));
+            r?;
+        }
         self.step_no += 1;
         self.released.clear();
         let r = self.apply_inner(a);
